@@ -21,10 +21,12 @@ LEVEL_TEXT = ("static analysis: (D1) _parse_records interpreted on symbolic reco
               "genotypes, then keeps the (normal's) heterozygous records -- also when every record is somatic; (D5) _choose_samples over sample "
               'lists x PEDIGREE pairs x requested ids: PEDIGREE pairs first, else the given normal paired with every other sample, else all '
               'samples unpaired; restricted to the requested sample; a requested control sample comes back alone; the first pair wins; unknown '
-              "ids raise; (D6) TumorBoost values are stored back through a Series built on the variants' own index, at both store sites (a fresh "
-              "0..n-1 index would be aligned by label onto the wrong variants of a filtered table). (D7) do_call takes a segment's BAF from "
-              "baf_by_ranges over the final segments: after the ci / sem merges, before the cn filters. Does not decide pysam's parsing, the "
-              "median aggregation values, nor heterozygous()'s documented fallback.")
+              "ids raise; (D6) TumorBoost values are stored back through a Series built on the variants' own index, at both store sites, with "
+              "heterozygous() interpreted for real (a fresh 0..n-1 index, or the full array's labels on a renumbered subset, would be aligned by "
+              "label onto the wrong variants). (D7) do_call takes a segment's BAF from baf_by_ranges (interpreted; into_ranges labelled as the "
+              'real function labels it) over the final segments -- after the ci / sem merges, before the cn filters -- and the values stay on '
+              "their own segments of a table whose index is not 0..n-1. Does not decide pysam's parsing, the median aggregation values, nor "
+              "heterozygous()'s documented fallback.")
 TECHNIQUE = "abstract interpretation over finite genotype / field-presence domains and order positions; exact rational identities; index-provenance (fresh vs aligned Series) tracking"
 
 V = "skgenome.tabio.vcfio"
